@@ -240,9 +240,6 @@ func runC09(c c09Case) (res c09Result, fail *verifkit.Failure) {
 		if T < 150000 {
 			T = 150000
 		}
-		if T > 400000 {
-			T = 400000
-		}
 		oneOff := 10_000_000
 		var hits, reads int
 		for i := 0; i < T; i++ {
@@ -292,8 +289,8 @@ func runC09(c c09Case) (res c09Result, fail *verifkit.Failure) {
 		z := newC09Zipf(n, float64(c.Skew100)/100)
 		lru := &c09LRU{cap: int64(c.MaxSize), l: list.New(), m: map[int]*list.Element{}}
 		T := 30 * c.MaxSize
-		if T > 300000 {
-			T = 300000
+		if T < 60000 {
+			T = 60000
 		}
 		var hits, lruHits, total int
 		for i := 0; i < T; i++ {
